@@ -166,7 +166,10 @@ func isNameRune(c rune) bool { return unicode.IsLetter(c) || unicode.IsNumber(c)
 
 // specBody: what a template WITHOUT expressions must evaluate to.  ok=false when the text contains an
 // expression start ("@(" or "@" + a name whose top level is allowed), i.e. is outside the sentence.
-func specBody(t string, tops map[string]bool) (string, bool) {
+func specBody(t string, tops map[string]bool) (string, bool) { return specBodyTops(t, tops, false) }
+
+// allowAll: every name is an allowed top level (nil list)
+func specBodyTops(t string, tops map[string]bool, allowAll bool) (string, bool) {
 	rs := []rune(t)
 	var sb strings.Builder
 	for i := 0; i < len(rs); {
@@ -196,7 +199,7 @@ func specBody(t string, tops map[string]bool) (string, bool) {
 			}
 			path := string(rs[i+1 : j])
 			top := strings.ToLower(strings.SplitN(path, ".", 2)[0])
-			if tops[top] {
+			if allowAll || tops[top] {
 				return "", false
 			}
 			sb.WriteString("@" + path)
@@ -247,11 +250,11 @@ func feature(s string) string {
 
 var specialPieces = []string{`"`, `"`, `\`, `\`, `(`, `)`, `@`, `@`, `.`, "\n", `\\`, `\"`, `@@`, `@(`, `")`, `"\`, `\\"`,
 	`)"`, `("`, `@.`, `@)`, ` `, `&`, `"" `}
-var namePieces = []string{"foo", "Foo", "FOO", "bar", "contact", "x1", "_", "_a", "9", "é", "Ünï", "名前", "𝒳", "٣", "a", "b"}
+var namePieces = []string{"foo", "Foo", "FOO", "bar", "contact", "x1", "_", "_a", "9", "é", "Ünï", "名前", "𝒳", "٣", "a", "b", "²", "Ⅷ", "½", "x²", "ǅ", "ʰ"}
 var otherPieces = []string{" ", "  ", "\t", "\r\n", "\x01", "\x7f", " ", "😀", "🙂", "!", "-", "+", ",", "[", "]", "=", "1", "2.5",
 	" ", "\ufeff", "'", "`", "#", "$", "%", "€"}
 var identPieces = []string{"@foo", "@foo.bar", "@Foo.x", "@bar", "@bar.baz", "@contact.name", "@foo.", "@foo..x", "@foo.1", "@x@y.z",
-	"bob@nyaruka.com", "@_x", "@9", "@é", "@Ünï.b", "@名前", "@foo@@"}
+	"bob@nyaruka.com", "@_x", "@9", "@é", "@Ünï.b", "@名前", "@foo@@", "@x²", "@foo.½", "@Ⅷ", "@foo²", "@x.²"}
 
 func randString(r *hx.Rand, maxPieces int) string {
 	n := r.Range(0, maxPieces)
@@ -294,7 +297,7 @@ func randBody(r *hx.Rand) string {
 		case k < 3:
 			sb.WriteString(hx.Pick(r, []string{"@", "@@", "@ ", "@.", "@@@", "@-", "@\n", `@"`, "@)", "@😀"}))
 		case k < 5:
-			sb.WriteString(hx.Pick(r, []string{"bob@nyaruka.com", "@bar", "@bar.baz", "@Bar_1.x", "hi @mention!", "@é", "@9lives", "@_", "x@y.z."}))
+			sb.WriteString(hx.Pick(r, []string{"bob@nyaruka.com", "@bar", "@bar.baz", "@Bar_1.x", "hi @mention!", "@é", "@9lives", "@_", "x@y.z.", "@x²", "@foo½", "@Ⅷ", "me@x².com", "@x.²", "@foo_", "@x-", "@x١"}))
 		case k < 8:
 			sb.WriteString(hx.Pick(r, namePieces))
 		case k < 11:
@@ -525,11 +528,67 @@ func main() {
 			res.Fail("body-passthrough:"+f, t, fmt.Sprintf("Template(%q) = %q err=%v panic=%q, statement prescribes %q", t, got, hasErr, p, want))
 		}
 	}
+	// O1 on the scanner API (VisitTemplate), also with a nil allowed list (= every name is allowed): text without
+	// expression start must come back as BODY tokens only, whose concatenation is the prescribed text
+	o1scan := func(t string, tops []string) {
+		if !validInput(t) {
+			return
+		}
+		var set map[string]bool
+		allowAll := tops == nil
+		if !allowAll {
+			set = map[string]bool{}
+			for _, k := range tops {
+				set[k] = true
+			}
+		}
+		want, ok := specBodyTops(t, set, allowAll)
+		if !ok {
+			return
+		}
+		res.OracleChecks++
+		var sb strings.Builder
+		nonBody := false
+		func() {
+			defer func() {
+				if r := recover(); r != nil {
+					nonBody = true
+				}
+			}()
+			excellent.VisitTemplate(t, tops, true, func(tt excellent.XTokenType, tok string) error {
+				if tt != excellent.BODY {
+					nonBody = true
+				}
+				sb.WriteString(tok)
+				return nil
+			})
+		}()
+		if nonBody || sb.String() != want {
+			f := "plain"
+			switch {
+			case strings.Contains(t, "@@"):
+				f = "at-at"
+			case strings.HasSuffix(t, "@"):
+				f = "at-eof"
+			case strings.Contains(t, "@"):
+				f = "at-literal"
+			}
+			res.Fail("body-passthrough-scan:"+f, map[string]any{"template": t, "tops": tops},
+				fmt.Sprintf("VisitTemplate(%q, %v) gave non-body=%v text=%q, statement prescribes body text %q", t, tops, nonBody, sb.String(), want))
+		}
+	}
 	for _, c := range corpus {
 		o1(c)
+		o1scan(c, nil)
+		o1scan(c, keys)
 	}
 	for i := 0; i < nOr; i++ {
-		o1(randBody(ro))
+		b := randBody(ro)
+		o1(b)
+		o1scan(b, nil)
+		if i%3 == 0 {
+			o1scan(b, hx.Pick(ro, topsChoices))
+		}
 	}
 
 	// O2, O3
